@@ -40,6 +40,7 @@ pub enum Op {
     Force(Option<u64>, Call),
     Block(Option<u64>, Vec<Call>),
     Obs(bool),
+    Query,
 }
 
 fn call_toks(c: &Call, s: &mut String) {
@@ -82,6 +83,7 @@ fn op_toks(o: &Op, s: &mut String) {
             }
         }
         Op::Obs(b) => write!(s, " 7 {}", u8::from(*b)).unwrap(),
+        Op::Query => s.push_str(" 8"),
     }
 }
 
@@ -207,10 +209,77 @@ fn exec(m: &mut CMap2<f64>, o: &Op) -> Res {
                 Err(e) => Res::Err(sew_err_code(&e)),
             }
         }
-        Op::Obs(_) => Res::Ok(0),
+        Op::Obs(_) | Op::Query => Res::Ok(0),
     }));
     arm_fault(None);
     r.unwrap_or(Res::Panic)
+}
+
+// ------------------------------------------------------------------ query observation (C03)
+
+fn list_toks(r: std::thread::Result<Vec<u32>>, s: &mut String) {
+    match r {
+        Ok(l) => {
+            write!(s, " {}", l.len()).unwrap();
+            for x in l {
+                write!(s, " {x}").unwrap();
+            }
+        }
+        Err(_) => s.push_str(" -1"),
+    }
+}
+fn id_toks(r: std::thread::Result<u32>, s: &mut String) {
+    match r {
+        Ok(x) => write!(s, " {x}").unwrap(),
+        Err(_) => s.push_str(" -1"),
+    }
+}
+
+/// orbits (plain and transactional) under eight policies, the three ids, then the three
+/// cell iterators; mirrors `query2` of coq/theories/Extract/Query2.v
+fn query2(m: &CMap2<f64>, s: &mut String) {
+    use honeycomb_core::cmap::OrbitPolicy as P;
+    use honeycomb_core::stm::atomically;
+    let n = m.n_darts() as u32;
+    write!(s, " {n}").unwrap();
+    static C1: [u8; 2] = [1, 2];
+    static C2: [u8; 1] = [0];
+    static C3: [u8; 3] = [2, 0, 1];
+    let pol = |i: usize| -> P {
+        match i {
+            0 => P::Vertex,
+            1 => P::VertexLinear,
+            2 => P::Edge,
+            3 => P::Face,
+            4 => P::FaceLinear,
+            5 => P::Custom(&C1),
+            6 => P::Custom(&C2),
+            _ => P::Custom(&C3),
+        }
+    };
+    for d in 1..n {
+        for i in 0..8 {
+            list_toks(catch_unwind(AssertUnwindSafe(|| m.orbit(pol(i), d).collect::<Vec<u32>>())), s);
+            list_toks(
+                catch_unwind(AssertUnwindSafe(|| {
+                    atomically(|t| {
+                        let mut v = Vec::new();
+                        for x in m.orbit_transac(t, pol(i), d) {
+                            v.push(x?);
+                        }
+                        Ok(v)
+                    })
+                })),
+                s,
+            );
+        }
+        id_toks(catch_unwind(AssertUnwindSafe(|| m.vertex_id(d))), s);
+        id_toks(catch_unwind(AssertUnwindSafe(|| m.edge_id(d))), s);
+        id_toks(catch_unwind(AssertUnwindSafe(|| m.face_id(d))), s);
+    }
+    list_toks(catch_unwind(AssertUnwindSafe(|| m.iter_vertices().collect::<Vec<u32>>())), s);
+    list_toks(catch_unwind(AssertUnwindSafe(|| m.iter_edges().collect::<Vec<u32>>())), s);
+    list_toks(catch_unwind(AssertUnwindSafe(|| m.iter_faces().collect::<Vec<u32>>())), s);
 }
 
 // ------------------------------------------------------------------ generation
@@ -382,6 +451,7 @@ fn parse_ops(t: &[&str]) -> Vec<Op> {
                 v.push(Op::Obs(t[i] != "0"));
                 i += 1;
             }
+            8 => v.push(Op::Query),
             _ => panic!("bad op token"),
         }
     }
@@ -418,7 +488,11 @@ fn run_case(id: &str, mask: u32, n0: u32, ops: &mut dyn FnMut(&CMap2<f64>, usize
             k += 1;
             line.clear();
             write!(line, "{id} {k} {}", r.toks()).unwrap();
-            dump2(&m, mask, &mut line);
+            if matches!(o, Op::Query) {
+                query2(&m, &mut line);
+            } else {
+                dump2(&m, mask, &mut line);
+            }
             writeln!(out.obs, "{line}").unwrap();
             line.clear();
             write!(line, "{id} {k}").unwrap();
@@ -540,6 +614,7 @@ fn main() {
     let wild: u64 = get("--wild", "8").parse().unwrap();
     let fault: u64 = get("--fault", "0").parse().unwrap();
     let tag = get("--tag", "r");
+    let query_pct: u64 = get("--query", "0").parse().unwrap();
     quiet_panics();
     let mut out = Out {
         cases: std::io::BufWriter::new(std::fs::File::create(format!("{outdir}/cases.txt")).unwrap()),
@@ -556,12 +631,24 @@ fn main() {
                 // the first case in ten is kept inside the contract of C01 (no wild arguments)
                 let w = if i % 10 == 0 { 0 } else { wild };
                 let mut r2 = Rng::new(rng.next());
+                let mut asked = false;
                 run_case(
                     &format!("{tag}{i}"),
                     mask,
                     n0,
                     &mut |m, step| {
-                        if step >= nops { None } else { Some(gen_op(&mut r2, m, mask, w, fault)) }
+                        if step >= nops {
+                            // a final query when the family asks for queries
+                            if query_pct > 0 && !asked {
+                                asked = true;
+                                return Some(Op::Query);
+                            }
+                            None
+                        } else if query_pct > 0 && r2.chance(query_pct, 100) {
+                            Some(Op::Query)
+                        } else {
+                            Some(gen_op(&mut r2, m, mask, w, fault))
+                        }
                     },
                     &mut out,
                 );
@@ -591,6 +678,25 @@ fn main() {
                     run_case(&format!("x{n}_{id}"), 0, n, &mut |_, _| it.next(), &mut out);
                     id += 1;
                 }
+            }
+        }
+        "exhq" => {
+            let n = maxn as u32;
+            for (id, (b1, b2, rem)) in all_maps(n).iter().enumerate() {
+                let mut ops: Vec<Op> = vec![Op::Obs(false)];
+                for (a, b) in b1 {
+                    ops.push(Op::Force(None, Call::Link1(*a, *b)));
+                }
+                for (a, b) in b2 {
+                    ops.push(Op::Force(None, Call::Link2(*a, *b)));
+                }
+                for d in rem {
+                    ops.push(Op::RemoveDart(*d));
+                }
+                ops.push(Op::Obs(true));
+                ops.push(Op::Query);
+                let mut it = ops.into_iter();
+                run_case(&format!("q{n}_{id}"), 0, n, &mut |_, _| it.next(), &mut out);
             }
         }
         "replay" => {
